@@ -236,6 +236,13 @@ func (fr *Frame) funcValueKey(v ssa.Value) string {
 		return fr.outerName() + "." + x.Name()
 	case *ssa.FreeVar:
 		return fr.outerName() + "." + x.Name()
+	case *ssa.Extract:
+		// a function value returned by a call: "callee#index", e.g. context.WithCancel#1
+		if c, ok := x.Tuple.(*ssa.Call); ok {
+			if callee := c.Call.StaticCallee(); callee != nil {
+				return fmt.Sprintf("%s#%d", canonFunc(callee), x.Index)
+			}
+		}
 	case *ssa.Phi:
 		// e.g. fn := a; if fn == nil { fn = b }
 		for _, e := range x.Edges {
